@@ -1,6 +1,7 @@
 package wpool
 
 import (
+	"github.com/glebziz/fs_db/internal/utils/vhook"
 	"log/slog"
 )
 
@@ -12,6 +13,7 @@ func (p *Pool) Stop() {
 	}
 
 	p.cancel()
+	vhook.At("wpool.stop.cancelled")
 	p.sendWg.Wait()
 	p.runWg.Wait()
 
